@@ -6,11 +6,17 @@ user-file state and history.
 -/
 import RitiModel.Model.Context
 import RitiModel.Spec.LayoutSpec
+import RitiModel.Gen.PanicSites
 namespace Riti.C01
 open Riti Riti.Gen
 
 /-- the catch-all arm of `keycode_to_char` does not panic (regenerated from the source) -/
 theorem catch_all_does_not_panic : Gen.keyCharFallbackPanics = false := by decide
+
+/-- a regex that does not compile (one word of a couple of thousand characters: `CompiledTooBig`)
+    is tolerated at both call sites — regenerated from the source on every run; the model's
+    `computeEntry` treats the failure as "no dictionary hits" only because of this -/
+theorem regex_failure_tolerated : Gen.regexCompileUnwraps.all (fun b => !b) = true := by decide
 
 /-- every key code published in riti.h either types a character or is one of the two keypad keys
     without one (VC_KP_EQUALS = 3597, VC_KP_ENTER = 3612), which the methods ignore -/
